@@ -88,8 +88,35 @@ def owned_mutables(d, label):
     return acc, secs
 
 
-def class_default_mutables():
+def module_level_mutables():
+    """Every dict / list / set bound at module level in pydiffx.* (caches,
+    tables), walked recursively: a tree must not share objects with them."""
+    import sys
+    import types
     acc = []
+    for mname, mod in list(sys.modules.items()):
+        if not (mname == 'pydiffx' or mname.startswith('pydiffx.')) or \
+                '.tests' in mname or mod is None:
+            continue
+        for name, val in list(vars(mod).items()):
+            if name.startswith('__') or isinstance(val, (type,
+                                                         types.ModuleType)):
+                continue
+            if isinstance(val, (dict, list, set)):
+                _mutables(val, 'module %s.%s' % (mname, name), acc)
+    # the same table imported into several modules is one object, not
+    # aliasing: keep the first path per object
+    seen = set()
+    out = []
+    for i, path in acc:
+        if i not in seen:
+            seen.add(i)
+            out.append((i, path))
+    return out
+
+
+def class_default_mutables():
+    acc = module_level_mutables()
     for name in dir(dom_objects):
         c = getattr(dom_objects, name)
         if isinstance(c, type) and issubclass(c,
